@@ -5,7 +5,7 @@ DEFAULT_CMDS = ["metric_data", "error_data", "sql_trace_data", "transaction_samp
 ALL = 1023
 DEFAULT = 1 + 2 + 4 + 8 + 512
 RETRY = ["503", "429", "500", "408"]
-NORETRY = ["400", "403", "404", "413", "415", "neterr", "501", "502", "504", "599"]
+NORETRY = ["400", "403", "404", "413", "415", "neterr", "nettimeout", "nettimeout", "501", "502", "504", "599"]
 FATAL = ["401", "409", "410"]
 
 
